@@ -359,10 +359,13 @@ def conclude(pid, tier, seed, mod, mod_name, names, results, t0):
         'wall_s': round(wall, 2),
         'violations': len(violations),
     }
-    os.makedirs(os.path.join(ROOT, 'evidence'), exist_ok=True)
-    with open(os.path.join(ROOT, 'evidence', f'{pid}.json'), 'w') as f:
-        json.dump(ev, f, indent=1, default=str)
-        f.write('\n')
+    # evidence describes runs against /repo itself: a run against a scratch tree (seed trials,
+    # DASHLIVE_REPO set) or a filtered run (VERIF_ONLY) never overwrites it
+    if REPO == '/repo' and not os.environ.get('VERIF_ONLY') and not os.environ.get('VERIF_NO_EVIDENCE'):
+        os.makedirs(os.path.join(ROOT, 'evidence'), exist_ok=True)
+        with open(os.path.join(ROOT, 'evidence', f'{pid}.json'), 'w') as f:
+            json.dump(ev, f, indent=1, default=str)
+            f.write('\n')
 
     print(f'{pid} [{tier}] instances={len(names)} paths={totals["paths"]} queries={totals["queries"]} '
           f'solver={totals["solver_s"]:.1f}s wall={wall:.1f}s obligations={n_dis}/{n_obl} discharged')
